@@ -139,7 +139,7 @@ func newXP2(name string) psatoken.IClaims {
 
 type XP2Profile struct{ N string }
 
-func (p XP2Profile) GetName() string            { return p.N }
+func (p XP2Profile) GetName() string             { return p.N }
 func (p XP2Profile) GetClaims() psatoken.IClaims { return newXP2(p.N) }
 
 // ---- extension over profile 1
@@ -208,7 +208,7 @@ func newXP1(name string) psatoken.IClaims {
 
 type XP1Profile struct{ N string }
 
-func (p XP1Profile) GetName() string            { return p.N }
+func (p XP1Profile) GetName() string             { return p.N }
 func (p XP1Profile) GetClaims() psatoken.IClaims { return newXP1(p.N) }
 
 var simProfilesRegistered bool
@@ -358,7 +358,7 @@ type NoProfClaims struct{ psatoken.IClaims }
 
 type NoProfProfile struct{ N string }
 
-func (p NoProfProfile) GetName() string            { return p.N }
+func (p NoProfProfile) GetName() string             { return p.N }
 func (p NoProfProfile) GetClaims() psatoken.IClaims { return &NoProfClaims{} }
 
 // NoTagClaims has a field called Profile, but without a json tag.
@@ -369,5 +369,5 @@ type NoTagClaims struct {
 
 type NoTagProfile struct{ N string }
 
-func (p NoTagProfile) GetName() string            { return p.N }
+func (p NoTagProfile) GetName() string             { return p.N }
 func (p NoTagProfile) GetClaims() psatoken.IClaims { return &NoTagClaims{} }
